@@ -289,6 +289,11 @@ impl Tr {
                         self.expr(&m.receiver)?,
                         self.expr(args[0])?
                     )),
+                    ("div_ceil", 1) => {
+                        let a = self.expr(&m.receiver)?;
+                        let b = self.expr(args[0])?;
+                        Ok(format!("(({} + {} - 1) / {})", a, b, b))
+                    }
                     ("min", 1) => Ok(format!(
                         "(Nat.min {} {})",
                         self.expr(&m.receiver)?,
@@ -335,6 +340,10 @@ impl Tr {
                     ("len", 0) => match self.place_name(&m.receiver) {
                         Some(n) => Ok(self.param(format!("{}_len", sanitize(&n)))),
                         None => err(format!("len on {}", m.receiver.to_token_stream())),
+                    },
+                    ("max_capacity", 0) => match self.place_name(&m.receiver) {
+                        Some(n) => Ok(self.param(format!("{}_max_capacity", sanitize(&n)))),
+                        None => err(format!("max_capacity on {}", m.receiver.to_token_stream())),
                     },
                     // transparent wrappers
                     ("value", 0) | ("clone", 0) | ("copied", 0) | ("cloned", 0) | ("as_ref", 0)
